@@ -62,7 +62,7 @@ func drawDate(t *rapid.T, name string) string {
 }
 
 type Damage struct {
-	Kind string `json:"kind"` // none | truncate | delete_lt | delete_gt | rename_close | stray_amp | unclosed_quote | invalid_byte | bad_number | truncate_gzip
+	Kind string `json:"kind"` // none | truncate | delete_lt | delete_gt | rename_close | stray_amp | unclosed_quote | invalid_byte | bad_number | bad_date | truncate_gzip
 	At   int    `json:"at"`   // truncate: byte offset; others: index of the occurrence to damage (mod count)
 }
 
@@ -228,6 +228,28 @@ func applyDamage(doc []byte, rootEnd int, d Damage) (out []byte, at int, damaged
 		}
 		o := append([]byte{}, doc...)
 		o[p] = 'O'
+		return o, p, true
+	case "bad_date": // the tens digit of the day of a created / modified date becomes 4 (2019-12-11 -> 2019-12-41): still well-formed XML
+		p, ok := pickFrom(occurrences(doc, func(i int) bool {
+			if !inRoot(i) || doc[i] < '0' || doc[i] > '9' {
+				return false
+			}
+			q := bytes.LastIndexByte(doc[:i], '"')
+			if i-q != 9 { // "YYYY-MM-D: the ninth character after the quote
+				return false
+			}
+			for _, attr := range []string{` created="`, ` modified="`} {
+				if q+1 >= len(attr) && string(doc[q+1-len(attr):q+1]) == attr {
+					return true
+				}
+			}
+			return false
+		}))
+		if !ok {
+			return doc, 0, false
+		}
+		o := append([]byte{}, doc...)
+		o[p] = '4'
 		return o, p, true
 	case "invalid_byte":
 		pos := occurrences(doc, inRoot)
@@ -418,7 +440,7 @@ func check(c Case) error {
 		}
 	}
 	lenient := false
-	if damaged && c.Damage.Kind == "bad_number" {
+	if damaged && (c.Damage.Kind == "bad_number" || c.Damage.Kind == "bad_date") {
 		// The text is well-formed XML whose structure is intact; one numeric attribute does not hold a number.
 		// A parser may take that as damage (then: the entries before it, and at least one error) or read the
 		// attribute leniently (then: all k entries and no error). Fewer than k entries without an error is neither.
@@ -470,9 +492,27 @@ func check(c Case) error {
 			return vk.Errf("%s: delivered entry %d has %s", what, i, diff)
 		}
 	}
+	// a damaged document read a second time in the same process, through the other route (the file route
+	// through gzip if the first reading was from memory, and the other way round): the same document gets
+	// the same verdict - as many entries, and an error reported or not
+	if damaged && c.Damage.Kind != "truncate_gzip" {
+		second := c
+		second.ViaGzip = !c.ViaGzip
+		feed2 := data
+		if second.ViaGzip {
+			feed2 = vk.Gzip(data)
+		}
+		o2, problem := consume(second, feed2)
+		if problem != nil {
+			return vk.Errf("second reading: %v [%s]", problem, what)
+		}
+		if o2.openErr == nil && (len(o2.entries) != len(o.entries) || (len(o2.errs) == 0) != (len(o.errs) == 0)) {
+			return vk.Errf("%s: the first reading (gzip %v) delivered %d entries and %d errors, the second reading of the same bytes (gzip %v) %d entries and %d errors", what, c.ViaGzip, len(o.entries), len(o.errs), second.ViaGzip, len(o2.entries), len(o2.errs))
+		}
+	}
 	if lenient {
 		if len(o.errs) == 0 && len(o.entries) != len(c.Entries) {
-			return vk.Errf("%s (a numeric attribute holds a letter): %d of %d entries delivered and no error reported", what, len(o.entries), len(c.Entries))
+			return vk.Errf("%s (an attribute does not hold what its type demands): %d of %d entries delivered and no error reported", what, len(o.entries), len(c.Entries))
 		}
 		return nil
 	}
@@ -617,7 +657,7 @@ func genWellFormed(t *rapid.T) Case {
 
 func genDamaged(t *rapid.T) Case {
 	c := Case{Entries: drawEntries(t, 60), Copyright: rapid.Bool().Draw(t, "copyright"), Pretty: rapid.Bool().Draw(t, "pretty"), Consumer: drawConsumer(t)}
-	c.Damage = Damage{Kind: rapid.SampledFrom([]string{"truncate", "truncate", "delete_lt", "delete_gt", "rename_close", "stray_amp", "unclosed_quote", "invalid_byte", "bad_number", "truncate_gzip"}).Draw(t, "damage"),
+	c.Damage = Damage{Kind: rapid.SampledFrom([]string{"truncate", "truncate", "delete_lt", "delete_gt", "rename_close", "stray_amp", "unclosed_quote", "invalid_byte", "bad_number", "bad_date", "truncate_gzip"}).Draw(t, "damage"),
 		At: rapid.IntRange(0, 1<<30).Draw(t, "damage_at")}
 	if c.Damage.Kind == "truncate_gzip" || rapid.IntRange(0, 4).Draw(t, "via_gzip") == 0 {
 		c.ViaGzip = true
